@@ -23,11 +23,11 @@ const scoreCID = "verif"
 var scoreAddr = common.MustNewAddressFromString("cx00000000000000000000000000000000000c0016")
 
 type op struct {
-	Op    string `json:"op"`            // set del xfer event btp call steps revert drain addval burnsteps
-	K     string `json:"k,omitempty"`   // storage key
-	V     string `json:"v,omitempty"`   // storage value (hex) / amount (decimal)
-	To    string `json:"to,omitempty"`  // address
-	N     int64  `json:"n,omitempty"`   // steps / code / nid
+	Op    string `json:"op"`           // set del xfer event btp call steps revert drain addval burnsteps
+	K     string `json:"k,omitempty"`  // storage key
+	V     string `json:"v,omitempty"`  // storage value (hex) / amount (decimal)
+	To    string `json:"to,omitempty"` // address
+	N     int64  `json:"n,omitempty"`  // steps / code / nid
 	Prog  []op   `json:"prog,omitempty"`
 	Catch bool   `json:"catch,omitempty"`
 	M     string `json:"m,omitempty"` // method name for call (default run)
